@@ -16,15 +16,20 @@
 EXTENDS Naturals, Sequences, FiniteSets, TLC
 CONSTANTS NThreads, MaxCalls, Texts      \* Texts: set of byte sequences that may contain 0
 Threads == 1..NThreads
-VARIABLES lastErr, calls, who
-vars == <<lastErr, calls, who>>
+VARIABLES lastErr, calls, who, hist
+vars == <<lastErr, calls, who, hist>>
 NulSub(s) == [i \in 1..Len(s) |-> IF s[i] = 0 THEN 26 ELSE s[i]]
 Null == <<"null">>
-Init == lastErr = [t \in Threads |-> Null] /\ calls = 0 /\ who = 0
-Ok(t) == calls < MaxCalls /\ calls' = calls + 1 /\ who' = t /\ UNCHANGED lastErr
+(* hist records every call with the last-error state of ALL threads after it (for replay) *)
+Snap(le) == [t \in Threads |-> IF le[t] = Null THEN [null |-> TRUE, b |-> <<>>] ELSE [null |-> FALSE, b |-> le[t][2]]]
+Init == lastErr = [t \in Threads |-> Null] /\ calls = 0 /\ who = 0 /\ hist = <<>>
+Ok(t) == /\ calls < MaxCalls /\ calls' = calls + 1 /\ who' = t /\ UNCHANGED lastErr
+         /\ hist' = Append(hist, [th |-> t, call |-> "ok", text |-> <<>>, after |-> Snap(lastErr)])
 Fail(t) == /\ calls < MaxCalls /\ calls' = calls + 1 /\ who' = t
-           /\ \E x \in Texts : lastErr' = [lastErr EXCEPT ![t] = <<"text", NulSub(x)>>]
-Clear(t) == calls < MaxCalls /\ calls' = calls + 1 /\ who' = t /\ lastErr' = [lastErr EXCEPT ![t] = Null]
+           /\ \E x \in Texts : /\ lastErr' = [lastErr EXCEPT ![t] = <<"text", NulSub(x)>>]
+                                 /\ hist' = Append(hist, [th |-> t, call |-> "fail", text |-> x, after |-> Snap(lastErr')])
+Clear(t) == /\ calls < MaxCalls /\ calls' = calls + 1 /\ who' = t /\ lastErr' = [lastErr EXCEPT ![t] = Null]
+            /\ hist' = Append(hist, [th |-> t, call |-> "clear", text |-> <<>>, after |-> Snap(lastErr')])
 Next == \E t \in Threads : Ok(t) \/ Fail(t) \/ Clear(t)
 Spec == Init /\ [][Next]_vars
 (* invariants *)
